@@ -85,13 +85,17 @@ def Mon.close (j : Mon) : Mon :=
   let j1 := { j with now := j.target }
   { j1 with ok := j1.ok && quiescentOk j1, subs := j1.subs.map (fun s => { s with credit := 0 }) }
 
+/-- an assignment: the current value and the time of the last change -/
+def Mon.assign (j : Mon) (x : Nat) (v : Int) : Mon :=
+  if j.cur[x]? = some (some v) then j
+  else if x < j.cur.length then
+    { j with cur := j.cur.set x (some v), lastChange := j.lastChange.set x j.now }
+  else j
+
 def Mon.beginOp (j : Mon) : Op → Mon
   | .adv dt => { j with target := j.now + dt }
-  | .set x v =>
-    if j.cur[x]? = some (some v) then j
-    else if x < j.cur.length then
-      { j with cur := j.cur.set x (some v), lastChange := j.lastChange.set x j.now }
-    else j
+  | .set x v => j.assign x v
+  | .setMany l => l.foldl (fun j p => j.assign p.1 p.2) j
   | .subscribe sid cb to => { j with awaiting := some (.subscribe sid cb to) }
   | .unsubscribe sid => { j with awaiting := some (.unsubscribe sid) }
   | .done _ => j
